@@ -105,7 +105,7 @@ func init() {
 	core.Register(&core.Prop{
 		ID:     "C03",
 		Rule:   "conformant streams from the harness's own frame encoder (1-4 messages, fragment sizes >= 0 incl. empty frames, 7/16/64-bit lengths, random and pathological mask keys, ping/pong between any two frames, optional close, deflated messages at Go flate levels -2..9 when negotiated) x transport chunkings {whole, 1 byte, frame boundaries, random} x ReadBufferSize {0,1,16,124..126,200,256,257,512,4096} x read programs {ReadMessage | NextReader+Read of mixed sizes | abandon part-way | stale reads}; both roles; non-trivial = non-empty stream and at least one op; distinct by full tape",
-		Gen:    c03Gen,
+		Gen:    withNilHandlers(c03Gen),
 		Exec:   readerExec,
 		Decode: decodeReaderSpec,
 		Shrink: shrinkReader,
